@@ -318,3 +318,36 @@ Definition side_judge
                && (negb gc || (Qle_bool (0 - eps) pc && Qle_bool (pc + wc) (avail + eps)))))
        then 0 else 2)
     else 0))%nat.
+
+(* ---- render-level judges for the fixed dimension of margin boxes and for the page box (tolerance 1/1000) ---- *)
+Definition near3 (m : result (Q * Q * Q)) (o : Q * Q * Q) : bool :=
+  match m with
+  | Ok (a, i, b) => let '(a', i', b') := o in qnear a a' && qnear i i' && qnear b b'
+  | _ => false
+  end.
+
+(* marginbox-render, fixed dimension of one generated margin box: (outer = page margin on that side, pb),
+   specified (margin_a, inner, margin_b), top_or_left as make_margin_boxes must pass it, used values *)
+Definition fixed_render_judge (c : (Q * Q) * (oq * oq * oq) * bool * (Q * Q * Q)) : nat :=
+  let '((outer, pb), (ma, inner, mb), tol, out) := c in
+  let '(a, i, b) := out in
+  ((if near3 (compute_fixed_dimension outer pb ma inner mb tol) out then 0 else 1) +
+   (if qnear (a + pb + i + b) outer && match inner with Some w => qnear w i | None => Qle_bool (0 - (1 # 1000)) i end
+    then 0 else 2))%nat.
+
+(* marginbox-render, one dimension of the page box: (page size, pb), specified (margin_a, inner, margin_b),
+   (min, max), used values *)
+Definition page_render_judge (c : (Q * Q) * (oq * oq * oq) * (Q * oq) * (Q * Q * Q)) : nat :=
+  let '((cb, pb), (ma, inner, mb), (minw, maxw), out) := c in
+  let '(a, i, b) := out in
+  let m := page_dimension cb pb ma inner mb minw maxw in
+  ((match m with
+    | (Some a', Some i', Some b') => if qnear a a' && qnear i i' && qnear b b' then 0 else 1
+    | _ => 1
+    end) +
+   (let fills := qnear (a + pb + i + b) cb in
+    let at_bound := qnear i minw || match maxw with Some mx => qnear i mx | None => false end in
+    if match ma with Some v => qnear v a | None => true end
+       && match mb with Some v => qnear v b | None => true end
+       && (if is_auto ma || is_auto mb then fills else if is_auto inner then fills || at_bound else true)
+    then 0 else 2))%nat.
